@@ -211,3 +211,65 @@ Proof.
   rewrite EX, PA in M. destruct c; cbn in *. destruct M as (M1 & M2 & M3 & M4 & M5).
   repeat split; congruence.
 Qed.
+
+(** * several local Subscriptions (second follow-up)
+
+    The receiving node holds several Subscriptions (Subscriber.Subscribe called more than once);
+    [so_cancelled]: Cancel() was called on it before the message was published; [so_got]: the ids
+    of the headers its NextHeader returned that belong to this message. *)
+Record subobs := SubObs { so_cancelled : bool; so_got : list N }.
+
+Record case11s := Case11s { s_base : case11; s_subs : list subobs }.
+
+Definition state_of (s : subobs) : substate := if so_cancelled s then SubCancelled else SubLive.
+
+Definition nh_ids (d : list nhres) : list N :=
+  flat_map (fun r => match r with NhOk h => [h_id h] | NhPanic => [] end) d.
+
+(** the model's per-Subscription deliveries, projected to ids *)
+Definition model_subs (c : case11) (subs : list substate) : list (list N) :=
+  let r := validate_registered (val_of c) (regs_of c) (Msg (c_vdata c) (c_decode c)) in
+  map nh_ids (deliveries (pubsub_effects r) subs).
+
+Definition agree_subs (c : case11s) : bool :=
+  list_eqb (list_eqb N.eqb) (model_subs (s_base c) (map state_of (s_subs c))) (map so_got (s_subs c)).
+
+(** the property per Subscription, from the input table [expect]: a live one gets exactly the
+    accepted header, once; a cancelled one nothing *)
+Definition sub_ok (c : case11) (s : subobs) : bool :=
+  list_eqb N.eqb (so_got s)
+           (if so_cancelled s then [] else match snd (expect c) with Some k => [k] | None => [] end).
+
+Definition ok_subs (c : case11s) : bool := forallb (sub_ok (s_base c)) (s_subs c).
+
+Definition chk11s (c : case11s) : bool * bool * N :=
+  let '(a, o, k) := chk11 (s_base c) in (a && agree_subs c, o && ok_subs c, k).
+
+(** the model's own per-Subscription observation satisfies the check *)
+Lemma model_sub_live c (P : probe_ok c = true) :
+  model_subs c [SubLive] = [match snd (expect c) with Some k => [k] | None => [] end].
+Proof.
+  pose proof (ok11_pins _ (model11_ok c P)) as (_ & M2 & _).
+  assert (EX : expect (with_obs c (model11 c)) = expect c).
+  { destruct (model11 c) as [[[[[v d] r] p] k] ss]. destruct c; reflexivity. }
+  rewrite EX in M2. rewrite <- M2.
+  unfold model_subs, model11, deliveries, deliver_to. cbn [map].
+  destruct (e_deliver (pubsub_effects _)) as [[h|]|]; destruct c; reflexivity.
+Qed.
+
+Lemma list_eqb_refl_N (l : list N) : list_eqb N.eqb l l = true.
+Proof. induction l as [|a l IH]; cbn; [reflexivity | rewrite N.eqb_refl, IH; reflexivity]. Qed.
+
+Theorem model_subs_ok : forall c cancelled, probe_ok c = true ->
+  forallb (sub_ok c)
+          (map (fun '(x, g) => SubObs x g)
+               (combine cancelled (model_subs c (map (fun x : bool => if x then SubCancelled else SubLive) cancelled)))) = true.
+Proof.
+  intros c cancelled P. unfold model_subs, deliveries.
+  induction cancelled as [|x l IH]; [reflexivity|].
+  cbn [map combine forallb]. rewrite IH, andb_true_r.
+  unfold sub_ok. cbn [so_got so_cancelled]. destruct x.
+  - reflexivity.
+  - pose proof (model_sub_live c P) as L. cbv [model_subs deliveries deliver_to map] in L.
+    injection L as L. cbv [deliver_to]. rewrite L. apply list_eqb_refl_N.
+Qed.
